@@ -277,6 +277,44 @@ func (s *sess) closeAll() {
 	}
 }
 
+// startLive implements the options live=NAME hold=NAME of the glob-mode commands: the file NAME
+// receives a point while the command runs.  The file "hold" (one the command opens for its FIRST
+// matched file) is kept locked; two clock seconds later the point (time = the clock then) is
+// written and synced, then the lock is released: every file handled after the first one is read
+// after the write.  The returned channel yields "t,valuebits" (or "failed").
+func (s *sess) startLive(a kv) chan string {
+	liveDone := make(chan string, 1)
+	if a["live"] == "" {
+		return liveDone
+	}
+	hf, err := os.OpenFile(filepath.Join(s.dir, a["hold"]), os.O_RDWR, 0)
+	must(err)
+	must(flockEx(hf))
+	livePath := filepath.Join(s.dir, a["live"])
+	go func() {
+		start := time.Now().Unix()
+		for time.Now().Unix() < start+2 {
+			time.Sleep(20 * time.Millisecond)
+		}
+		tl := time.Now().Unix()
+		db, err := wt.Open(livePath)
+		if err == nil {
+			err = db.UpdatePointForArchive(wt.ArchiveIDBest, wt.Timestamp(tl), wt.Value(4242.5), wt.Timestamp(tl))
+			if err == nil {
+				err = db.Sync()
+			}
+			db.Close()
+		}
+		hf.Close()
+		if err != nil {
+			liveDone <- "failed"
+		} else {
+			liveDone <- fmt.Sprintf("%d,%016x", tl, math.Float64bits(4242.5))
+		}
+	}()
+	return liveDone
+}
+
 func hasMeta(p string) bool { return strings.ContainsAny(p, `*?[\`) }
 
 func init() {
@@ -303,38 +341,7 @@ func init() {
 		if hasMeta(sr) {
 			files = s.globRel(sb, sr)
 		}
-		// live=NAME hold=NAME : the source NAME receives a point while the command runs.  The
-		// destination "hold" of the first matched file is kept locked; two clock seconds later the
-		// point (time = the clock then) is written and synced, then the lock is released: every file
-		// copied after the first one is read after the write.
-		liveDone := make(chan string, 1)
-		if a["live"] != "" {
-			hf, err := os.OpenFile(filepath.Join(s.dir, a["hold"]), os.O_RDWR, 0)
-			must(err)
-			must(flockEx(hf))
-			livePath := filepath.Join(s.dir, a["live"])
-			go func() {
-				start := time.Now().Unix()
-				for time.Now().Unix() < start+2 {
-					time.Sleep(20 * time.Millisecond)
-				}
-				tl := time.Now().Unix()
-				db, err := wt.Open(livePath)
-				if err == nil {
-					err = db.UpdatePointForArchive(wt.ArchiveIDBest, wt.Timestamp(tl), wt.Value(4242.5), wt.Timestamp(tl))
-					if err == nil {
-						err = db.Sync()
-					}
-					db.Close()
-				}
-				hf.Close()
-				if err != nil {
-					liveDone <- "failed"
-				} else {
-					liveDone <- fmt.Sprintf("%d,%016x", tl, math.Float64bits(4242.5))
-				}
-			}()
-		}
+		liveDone := s.startLive(a)
 		t0 := time.Now().Unix()
 		err, panicked := runCmd(c.Execute)
 		t1 := time.Now().Unix()
@@ -373,11 +380,16 @@ func init() {
 		if hasMeta(sr) {
 			files = s.globRel(sb, sr)
 		}
+		liveDone := s.startLive(a)
 		t0 := time.Now().Unix()
 		err, panicked := runCmd(c.Execute)
 		t1 := time.Now().Unix()
 		recs, nows := parseOutput(readOut())
-		s.echo(fmt.Sprintf("%s nows=%s files=%s clock=%d,%d", strings.Join(tk, " "), csvOrDash(nows), csvOrDash(files), t0, t1))
+		liveAt := ""
+		if a["live"] != "" {
+			liveAt = " liveat=" + <-liveDone
+		}
+		s.echo(fmt.Sprintf("%s nows=%s files=%s clock=%d,%d%s", strings.Join(tk, " "), csvOrDash(nows), csvOrDash(files), t0, t1, liveAt))
 		s.emit("clidiff", statusOf(err, panicked), recs)
 	}
 	// items: "item|f1,f2;item2|f3" — what the item and file patterns match (glob oracle)
